@@ -1,5 +1,5 @@
 (* C12 — Groups add prefix and middleware to their own routes and leave no residue. Property theorems only. *)
-From Rux Require Import Base Str Norm NormFacts Reg RegFacts.
+From Rux Require Import Base Str Norm NormFacts Reg RegFacts Table Sys SysFacts.
 
 (* For every registration program (arbitrarily nested groups, Use anywhere, routes with variadic and later
    middleware) that registration accepts: the registered routes are exactly the lexically scoped ones —
@@ -30,8 +30,23 @@ Theorem C12_sibling_unaffected : forall strict pfx g p m body rest,
   den_block strict (pfx ++ nf strict p) (g ++ m) body ++ den_block strict pfx g rest.
 Proof. exact sibling_unaffected. Qed.
 
+(* the router built from a program (registration program, then every accepted route into the route table): route id i of
+   the table is the i-th lexically scoped route - same path, methods and name - and the global middleware are exactly the
+   top-level Use statements (Use inside a group never becomes global) *)
+Theorem C12_router_routes : forall o ss s, sys_build o ss = Ok s ->
+  s_routes s = den_block (o_strict o) [] [] ss /\
+  List.length (routes (s_rt s)) = List.length (s_routes s) /\
+  forall i r, nth_error (s_routes s) i = Some r ->
+    exists rt, nth_error (routes (s_rt s)) i = Some rt /\ rt_path rt = r_path r /\
+      rt_methods rt = format_methods (r_methods r) /\ rt_name rt = r_name r.
+Proof. exact sys_build_routes. Qed.
+Theorem C12_router_globals : forall o ss s, sys_build o ss = Ok s -> s_globals s = den_globals ss.
+Proof. exact sys_build_globals. Qed.
+
 Print Assumptions C12_scoping.
 Print Assumptions C12_restore.
 Print Assumptions C12_program.
 Print Assumptions C12_use_local.
 Print Assumptions C12_sibling_unaffected.
+Print Assumptions C12_router_routes.
+Print Assumptions C12_router_globals.
